@@ -110,9 +110,18 @@ func Now() Time {
 	}
 	mu.Lock()
 	o := offset
+	h := onNow
 	mu.Unlock()
+	if h != nil {
+		h(o)
+	}
 	return time.Unix(Epoch, 0).Add(o)
 }
+
+var onNow func(offset Duration)
+
+// SetOnNow installs a callback that sees every virtual clock read.
+func SetOnNow(f func(offset Duration)) { mu.Lock(); onNow = f; mu.Unlock() }
 
 // Advance moves the virtual clock. No timer fires by itself.
 func Advance(d Duration) {
